@@ -224,6 +224,65 @@ def prop_thdm_api(case):
     return None
 
 
+# ------------------------------------------------------------------ THDM tachyons (gauge basis)
+
+@st.composite
+def thdm_tachyon_case(draw):
+    m = draw(gen.thdm_mass(mrange=(50.0, 3000.0)))
+    which = draw(st.sampled_from(["none", "mh", "mA", "mA", "mHp", "mHp", "mh+mH"]))
+    depth = draw(gen.logu(5.0, 2000.0))       # sqrt(-m^2) in GeV: shallow and deep (below -MW^2, -MZ^2) tachyons
+    return {"p": m, "which": which, "depth": depth, "force": draw(st.booleans())}
+
+
+def prop_thdm_tachyon(case):
+    """gauge-basis input constructed (documented relations between the bases, linear in the squared masses) so that
+    exactly the named state has the squared mass -depth^2: a tachyon must be reported iff one was put in"""
+    m, which, depth = case["p"], case["which"], case["depth"]
+    sq = {}
+    if which in ("mh", "mA", "mHp"):
+        sq[which] = -depth * depth
+    elif which == "mh+mH":
+        sq["mh"] = -depth * depth
+        sq["mH"] = -0.25 * depth * depth
+    if m["mh"] == m["mH"] and which in ("mh", "mh+mH"):
+        discard("degenerate-CP-even-base")
+        return None
+    lam = gen.lambdas_from_mass(m, gen.sm_v(m["sm"]), sq)
+    if not all(math.isfinite(x) for x in lam):
+        discard("non-finite-couplings")
+        return None
+    q = {"basis": "gauge", "lambda": lam, "tb": m["tb"], "m122": m["m122"], "yuk": m["yuk"], "sm": m["sm"],
+         "running": m["running"], "force": case["force"]}
+    r = vx.shared().call("thdm", *gen.thdm_tokens(q, ("model", "amu")))
+    if isinstance(r, (vx.Died, vx.Err)):
+        return Fail("executor failure", result=repr(r))
+    exc = r.get("exc")
+    label("tachyon:" + which + (":deep" if depth > 100.0 else ":shallow"))
+    if which == "none":
+        if exc == "EPhysicalProblem" or (not exc and r["have_problem"]):
+            # the base point may itself sit at a vanishing squared mass (m_h = 0 inputs are not generated here)
+            return Fail("tachyon reported for a spectrum without negative squared mass", exc=exc, msg=r.get("excmsg"),
+                        problems=r.get("problems"))
+        if exc:
+            discard("control-rejected:" + exc)
+        else:
+            trivial()
+        return None
+    if not case["force"]:
+        if not exc:
+            return Fail("tachyonic spectrum accepted without force-output", which=which, squared_mass=sq,
+                        have_problem=r.get("have_problem"), amu1L=r.get("amu1L"))
+        if exc != "EPhysicalProblem":
+            return Fail("wrong exception class for a tachyonic spectrum", exc=exc, msg=r.get("excmsg"), which=which)
+        return None
+    if exc:
+        return Fail("force-output set but the tachyonic model was refused", exc=exc, msg=r.get("excmsg"), which=which)
+    if not r["have_problem"] or "tachyon" not in (r.get("problems") or "").lower():
+        return Fail("force-output: tachyon neither flagged as a problem nor named", which=which, squared_mass=sq,
+                    problems=r.get("problems"), log=r.log[:300])
+    return None
+
+
 # ------------------------------------------------------------------ program level
 
 CLI_DEFECTS = {
@@ -393,6 +452,10 @@ def subchecks(ctx):
         Sub("thdm-api", thdm_case(), prop_thdm_api, {"quick": 500, "thorough": 6000}, nontrivial=lambda c: True,
             classes=lambda c: ["defects:%d" % len(c["defects"]), "force:%d" % int(c["force"])] + ["d:" + d for d in c["defects"]],
             rule="THDM mass-basis point x defects x force-output through the C++ API"),
+        Sub("thdm-tachyon", thdm_tachyon_case(), prop_thdm_tachyon, {"quick": 300, "thorough": 5000},
+            nontrivial=lambda c: c["which"] != "none",
+            classes=lambda c: ["which:" + c["which"], "force:%d" % c["force"]],
+            rule="THDM gauge-basis input built so that a chosen Higgs state has a negative squared mass of chosen depth"),
         Sub("program", cli_case(), prop_cli, {"quick": 400, "thorough": 4000}, nontrivial=lambda c: True,
             classes=lambda c: ["kind:" + c["content"]["kind"], "force:%d" % int(c["force"]), "fmt:%d" % c["fmt"]] + ["d:" + d for d in c["defects"]] + ["stress:" + d for d in c.get("stress", [])],
             rule="input file x defects x force-output x output format through the program"),
